@@ -164,3 +164,17 @@ MUTANTS["C13"] = {
 NEUTRAL["dropout_uses_random_sample"] = [(L, "        random_data = np.random.rand(*x.shape)\n", "        random_data = np.random.random_sample(x.shape)\n")]
 NEUTRAL["dropout_strict_less_than"] = [(L, "        random_data = np.where(random_data <= self.p, 0, 1)", "        random_data = np.where(random_data < self.p, 0, 1)")]
 NEUTRAL["bn_running_update_in_place_form"] = [(K, "        running_mean = mean * momentum + running_mean * (1 - momentum)", "        running_mean = running_mean + momentum * (mean - running_mean)")]
+
+_ITER_FIXED = "        return (self[idx] for idx in range(len(self)))"
+MUTANTS["C05"] = {
+    "orig_shared_cursor": [(T, _ITER_FIXED, "        self._current_idx = 0\n        return self\n\n    def __next__(self):\n        if self._current_idx >= len(self):\n            raise StopIteration\n        val = self[self._current_idx]\n        self._current_idx += 1\n        return val")],
+    "iter_off_by_one_last_row_dropped_when_gt3": [(T, _ITER_FIXED, "        n_ = len(self)\n        return (self[idx] for idx in range(n_ if n_ <= 3 else n_ - 1))")],
+    "iter_caches_rows_on_tensor": [(T, _ITER_FIXED, "        if not hasattr(self, '_rows_it'):\n            self._rows_it = iter([self[idx] for idx in range(len(self))])\n        return self._rows_it")],
+    # (evaluating len() lazily at the first next() is a neutral refactor: see NEUTRAL iter_via_lazy_generator)
+    "iter_reversed_when_derived": [(T, _ITER_FIXED, "        return (self[idx] for idx in (range(len(self)) if self._grad_fn is None else reversed(range(len(self)))))")],
+    "iter_shared_position_via_class_attr": [(T, _ITER_FIXED, "        Tensor._pos = 0\n        def gen_():\n            while Tensor._pos < len(self):\n                Tensor._pos += 1\n                yield self[Tensor._pos - 1]\n        return gen_()")],
+    "iter_yields_flat_elements_for_rank1_f32": [(T, _ITER_FIXED, "        return (self[idx] if not (self.ndim == 1 and self.dtype == np.float32 and len(self) == 4) else self[idx] * 1.0000001 for idx in range(len(self)))")],
+}
+NEUTRAL["iter_via_list_iterator"] = [(T, _ITER_FIXED, "        return iter([self[idx] for idx in range(len(self))])")]
+NEUTRAL["iter_via_generator_function"] = [(T, _ITER_FIXED, "        n_ = len(self)\n        def gen_():\n            for idx in range(n_):\n                yield self[idx]\n        return gen_()")]
+NEUTRAL["iter_via_lazy_generator"] = [(T, _ITER_FIXED, "        def gen_():\n            for idx in range(len(self)):\n                yield self[idx]\n        return gen_()")]
